@@ -2,6 +2,7 @@ import ComposeVerif.Ops.Common
 import ComposeVerif.Model.Extends
 import ComposeVerif.Model.ExtendsMerge
 import ComposeVerif.Model.ExtendsFS
+import ComposeVerif.Spec.Extends
 import ComposeVerif.Gen.Tables
 /-! line-protocol ops for C05: `c05.apply` (ApplyExtends over a file-system table), `c05.extend` (plain ExtendService) -/
 open Lean
@@ -72,7 +73,14 @@ def apply : Handler := fun args =>
       | _ => []
     let outs := outs0 ++ perSvc
     let distinct := outs.foldl (fun acc s => if acc.contains s then acc else acc ++ [s]) ([] : List String)
-    Json.mkObj [("outs", Json.arr (distinct.filterMap fun s => (Json.parse s).toOption).toArray)]
+    -- the flatten specification of every service (no tracker, no memoisation, no order): the spec oracle
+    let flat : List Json :=
+      match lookup "services" dict with
+      | some (.map S) => (keys S).map fun n =>
+          Json.arr #[.str n, outJson Val.toJson (flattenF E ((keyUniverse E S).length + 2) S n)]
+      | _ => []
+    Json.mkObj [("outs", Json.arr (distinct.filterMap fun s => (Json.parse s).toOption).toArray),
+                ("flat", Json.arr flat.toArray)]
   | _ => Json.mkObj [("bad", "dict")]
 
 /-- `override.ExtendService`: through the C04 merge model (`full`) and through the rule-free merge (`plain`) -/
